@@ -22,7 +22,7 @@ ASSUMPTIONS = ["the pessimistic set is taken as observed (its correctness is C11
                "bands: rectangles 1e-12 rel for domination (closed form), ellipsoids 2e-6+1e-4*mag"]
 N = {"quick": 190, "thorough": 3500}
 VARS = ["PaVeBa", "PaVeBaGP-IH", "PaVeBaGP-DE", "PartialGP-rect", "PartialGP-ell", "VOGP", "EpsilonPAL", "Auer", "Auer-emp", "VOGP", "EpsilonPAL"]
-REQUIRE = {"quick": {"must_discard": 300, "must_keep": 1500, "runs": 150, "vogp_ad_runs": 10, "frozen_witness_scenario_reached": 2, "frozen_witness_bandit_scenario_reached": 1, "auer_certified_only_by_per_objective_sum": 10,
+REQUIRE = {"quick": {"must_discard": 300, "must_keep": 1500, "runs": 150, "vogp_ad_runs": 10, "frozen_witness_scenario_reached": 2, "large_pessimistic_set_runs": 3, "pessimistic_set_above_64_seen": 1, "frozen_witness_bandit_scenario_reached": 1, "auer_certified_only_by_per_objective_sum": 10,
                      **{f"must_discard::{v}": 5 for v in set(VARS)}, **{f"must_keep::{v}": 20 for v in set(VARS)}}}
 TIMEOUT = {"quick": 1500, "thorough": 7200}
 
@@ -74,6 +74,33 @@ def directed_frozen_witness(mon):
             st = tr.steps[1]
             if 0 in (st["pre"][1] or set()) and 0 not in (st["pre"][2] or set()) and 1 in st["pre"][0]:
                 mon.count("frozen_witness_scenario_reached")
+
+
+def directed_large_pessimistic_set(mon, rng, variant):
+    """66-80 mutually incomparable designs (all in the pessimistic set) plus a few designs each dominated by exactly ONE front
+    design; the witnesses are the front designs with the highest indices, i.e. the last ones any ordered scan reaches.  Exposes
+    caps / truncations of the witness pool that only bite above a size threshold (seeded/Z03-vogp-witnesses-first-64)."""
+    nf = int(rng.integers(66, 81))
+    nd = int(rng.integers(3, 7))
+    t = (np.arange(nf) + 0.5) / nf
+    front = np.stack([t, 1.0 - t], axis=1)
+    gap = 1.0 / nf
+    wit = list(range(nf - nd, nf)) if rng.random() < 0.6 else sorted(rng.choice(nf, size=nd, replace=False).tolist())
+    dom = front[wit] - 0.3 * gap
+    mu = np.vstack([dom, front]) if rng.random() < 0.5 else np.vstack([front, dom])
+    h = 0.02 * gap
+    case, order = runs.make_case(rng, variant, m=2, K=len(mu), mu=mu, eps=0.01 * gap, scale=1.0, cone_families=["orthant"], contraction=1.0, batch=1)
+    case["fixed_boxes"] = (mu.tolist(), np.full_like(mu, h).tolist())
+    case["stub_mode"] = "large-pessimistic-set"
+    case["max_rounds"] = 1
+    tr = runs.run_case(case, order, mon, max_extra_steps=0)
+    mon.count("runs")
+    mon.count("large_pessimistic_set_runs")
+    for st in tr.steps:
+        if st["crash"] is None:
+            runchecks.check_discard(mon, tr, st)
+            if st.get("pess") is not None and len(st["pess"]) > 64:
+                mon.count("pessimistic_set_above_64_seen")
 
 
 def ad_run(mon, rng):
@@ -180,6 +207,9 @@ def shard(mon, tier, rng, shard_no, nshards):
     n = max(len(VARS), N[tier] // nshards)
     if shard_no == 0:
         directed_frozen_witness(mon)
+    big = {2: "VOGP", 3: "EpsilonPAL", 4: "PaVeBaGP-IH", 5: "VOGP"}
+    if shard_no % nshards in big or nshards < 6:
+        directed_large_pessimistic_set(mon, rng, big.get(shard_no, "VOGP"))
     for it in range(n):
         variant = VARS[(it + shard_no) % len(VARS)]
         case, order = make(rng, variant)
